@@ -109,7 +109,7 @@ def destinations(thorough):
     d += [("listen-ip", "192.0.2.5"), ("listen-ip", "2001:db8::5")]
     d += [("listen-ip-respelled", "2001:db8:0:0:0:0:0:5"), ("listen-ip-respelled", "2001:DB8::5")]
     if thorough:
-        d += [("listen-ip", "127.0.0.2"), ("listen-ip", "fe80::5"), ("listen-ip-respelled", "2001:0db8::0005"), ("listen-ip-respelled", "FE80::5")]
+        d += [("listen-ip", "fe80::5"), ("listen-ip-respelled", "2001:0db8::0005"), ("listen-ip-respelled", "FE80::5")]
     d += [("listen-ip-mapped", "::ffff:192.0.2.5")]
     d += [("other-host", "192.0.2.99"), ("other-host", "2001:db8::99"), ("other-host", "128.0.0.1"), ("public-name", "example.com"),
           ("public-name", "localhost.example.com"), ("public-name", "notlocalhost")]
@@ -361,7 +361,7 @@ def self_test():
             raise HarnessError("destination %r should be a name" % host)
         if kind not in ("public-name", "localhost", "localhost-case", "localhost-dot") and h[0] != "ip":
             raise HarnessError("destination %r should parse as an address" % host)
-        want_lb = kind in ("localhost", "localhost-case", "localhost-dot", "127.0.0.1", "loopback-v4-other", "::1", "::1-respelled", "mapped-loopback") or host == "127.0.0.2"
+        want_lb = kind in ("localhost", "localhost-case", "localhost-dot", "127.0.0.1", "loopback-v4-other", "::1", "::1-respelled", "mapped-loopback")
         if is_loopback(h) != want_lb:
             raise HarnessError("reference classifies %r (%s) loopback=%r" % (host, kind, is_loopback(h)))
 
